@@ -162,6 +162,7 @@ impl Report {
         // replay artefacts for unlisted violations
         let mut lines = vec![];
         let rdir = verif_dir().join("replays").join(&self.id);
+        let _ = std::fs::remove_dir_all(&rdir);
         if !unlisted.is_empty() {
             let _ = std::fs::create_dir_all(&rdir);
         }
